@@ -156,6 +156,8 @@ impl<DP: DependencyProvider> State<DP> {
                         .map_err(|terminal_incompat_id| {
                             #[cfg(pubgrub_verif)]
                             crate::verif::emit(|| self.verif_store_snapshot());
+                            #[cfg(pubgrub_verif)]
+                            crate::verif::emit(|| format!("terminal;{}", terminal_incompat_id.into_raw()));
                             self.build_derivation_tree(terminal_incompat_id)
                         })?;
                 self.unit_propagation_buffer.clear();
